@@ -53,25 +53,25 @@ class VariableTransformer:
             plausible_upper_bounds = np.copy(upper_bounds)
 
         lb = (
-            lower_bounds.copy()
+            lower_bounds.astype(float)
             if lower_bounds is not None
             else np.ones((1, D)) * -np.inf
         )
         ub = (
-            upper_bounds.copy()
+            upper_bounds.astype(float)
             if upper_bounds is not None
             else np.ones((1, D)) * np.inf
         )
 
         plb = (
-            lower_bounds.copy()
+            lower_bounds.astype(float)
             if (plausible_lower_bounds is None)
-            else plausible_lower_bounds.copy()
+            else plausible_lower_bounds.astype(float)
         )
         pub = (
-            upper_bounds.copy()
+            upper_bounds.astype(float)
             if (plausible_upper_bounds is None)
-            else plausible_upper_bounds.copy()
+            else plausible_upper_bounds.astype(float)
         )
 
         if np.isscalar(lb):
